@@ -1340,6 +1340,7 @@ class EtreeElementNode(ElementNode):
             etree = importlib.import_module('lxml.etree')
 
         document_node = object.__new__(EtreeDocumentNode)
+        document_node.name = None
         document_node.parent = None
         document_node.tree = root_node.tree
         if as_parent:
